@@ -34,11 +34,17 @@ func c18Main(e *Env) (*res.Result, error) {
 		n = 400
 	}
 	disabled := disabledTags()
+	// (specs that break goag's default/numbered restriction on shared responses may be
+	// refused on one side only: not a pair C18 can use)
+	disabled18 := map[string]bool{"responses:break-restriction": true}
+	for k, v := range disabled {
+		disabled18[k] = v
+	}
 	forms := specgen.BaseForms()
 	type pair struct{ a, b PkgSpec }
 	var pairs []pair
 	collect(e, "C18", n, func(t *rapid.T) PkgSpec {
-		c := specgen.NewCtx(t, disabled)
+		c := specgen.NewCtx(t, disabled18)
 		c.LowerCompNames = true
 		fam := rapid.SampledFrom([]string{"json", "params", "responses", "composition"}).Draw(t, "family")
 		var d *specgen.Doc
